@@ -115,6 +115,9 @@ mod bigint;
 mod bigrand;
 mod biguint;
 
+#[cfg(num_bigint_verif)]
+pub mod verif;
+
 #[cfg(target_pointer_width = "32")]
 type UsizePromotion = u32;
 #[cfg(target_pointer_width = "64")]
